@@ -520,6 +520,8 @@ def _concrete(v):
 def _one_driver(ctx, ir, name, want_rhs, rule, key, what, guard_within=None):
     ds = ir.drivers(name, exact=True)
     ctx.need(ds, 'driver of %s' % name)
+    if want_rhs == '1':
+        ds = q.raises(ir, name)            # `x.eq(cond)` and `with m.If(cond): x.eq(1)` in one form
     if guard_within is None:
         good = [a for a in ds if not a.guard and q.rhs_canon(a) == want_rhs]
         ok = len(ds) == 1 and len(good) == 1
